@@ -40,6 +40,8 @@ class Ctx:
         self.mulchain = {}
         self.mulwit = []
         self.memo = {}
+        self.cuts = {}
+        self.cuts_fired = set()
         self.products = {}
         self.product_terms = {}
         self.notes = []
@@ -208,7 +210,8 @@ class Executor:
             lt = None
             if tid is not None and not isinstance(tid, list):
                 try:
-                    lt = self.prog.layout(tid) if self.prog.types.get(tid, {}).get("kind") != "tuple" else None
+                    td = self.prog.types.get(tid, {})
+                    lt = self.prog.layout(tid) if td.get("kind") != "tuple" else list(td.get("elems", []))
                 except Exception:
                     lt = None
                 if lt is not None and len(lt) != len(a):
@@ -744,6 +747,22 @@ class Executor:
                 if isinstance(cond, bool):
                     pred, blk = blk, b["succs"][0 if cond else 1]
                     continue
+                cut = ctx.cuts.get(fr.fname) if ctx.cuts else None
+                if cut is not None and fr.id not in ctx.cuts_fired:
+                    ctx.cuts_fired.add(fr.id)
+                    cut(self, fr)
+                    # the cut may havoc memory: re-evaluate what the block computed after its last store
+                    last = max([k for k, x in enumerate(instrs) if x["op"] == "Store"] + [b["_nphi"] - 1])
+                    for k in range(last + 1, len(instrs) - 1):
+                        step(self, fr, instrs[k])
+                    cond = self.val(fr, term["cond"])
+                    if isinstance(cond, bool):
+                        pred, blk = blk, b["succs"][0 if cond else 1]
+                        continue
+                    cond = simp_bool(cond)
+                    if isinstance(cond, bool):
+                        pred, blk = blk, b["succs"][0 if cond else 1]
+                        continue
                 s0, s1 = b["succs"]
                 J = cfg["ipdom"].get(blk)
                 incyc = blk in cfg["incycle"]
